@@ -61,6 +61,26 @@ func bcd2(n int) byte { return byte(n/10<<4 | n%10) }
 
 // fieldBytes generates the wire bytes of one field. class: "valid" (in the field's domain),
 // "zero", "out" (outside the domain), "random".
+// specialPatterns: byte patterns of width w that decoders tend to single out - all zero, all 0xff, all 0x99,
+// the library's own encoding of the zero time (0001-01-01 00:00:00), a clock that was never set (2000-00-00),
+// 0x01 repeated, and the highest / lowest decimal values
+func specialPatterns(w int) [][]byte {
+	rep := func(x byte) []byte {
+		b := make([]byte, w)
+		for i := range b {
+			b[i] = x
+		}
+		return b
+	}
+	cut := func(p []byte) []byte {
+		b := make([]byte, w)
+		copy(b, p)
+		return b
+	}
+	return [][]byte{rep(0), rep(0xff), rep(0x99), rep(0x01), cut([]byte{0x00, 0x01, 0x01, 0x01, 0, 0, 0}), cut([]byte{0x20, 0, 0, 0, 0, 0, 0}),
+		cut([]byte{0x01, 0x01, 0x01, 0, 0, 0, 0}), cut([]byte{0x99, 0x99, 0x12, 0x31, 0x23, 0x59, 0x59}), cut([]byte{0x24, 0x00, 0, 0, 0, 0, 0})}
+}
+
 func fieldBytes(r *rand.Rand, kind, class string) []byte {
 	n := width(kind)
 	b := make([]byte, n)
